@@ -57,6 +57,12 @@ func main() {
 	}
 	iBasic, iBearer, iOauth := wide, wide+1, wide+2
 	schemes = append(schemes, scheme{"SBasic", "basic", ""}, scheme{"SBearer", "bearer", ""}, scheme{"SOauth", "oauth2", ""})
+	// two schemes on one credential channel, and one parameter name in two locations
+	iBearer2, iSameQ, iSameC := wide+3, wide+4, wide+5
+	schemes = append(schemes, scheme{"SBearer2", "bearer", ""}, scheme{"SSameQ", "qry", "X-K00"}, scheme{"SSameC", "ck", "X-K00"})
+	defs["SBearer2"] = M{"type": "http", "scheme": "bearer"}
+	defs["SSameQ"] = M{"type": "apiKey", "in": "query", "name": "X-K00"}
+	defs["SSameC"] = M{"type": "apiKey", "in": "cookie", "name": "X-K00"}
 	defs["SBasic"] = M{"type": "http", "scheme": "basic"}
 	defs["SBearer"] = M{"type": "http", "scheme": "bearer"}
 	defs["SOauth"] = M{"type": "oauth2", "flows": M{"clientCredentials": M{"tokenUrl": "https://x/token", "scopes": M{"read": "r", "write": "w", "admin": "a"}}}}
@@ -147,6 +153,12 @@ func main() {
 	addOp(plain([]int{iBearer}, []int{1}), true)
 	addOp([]alt{{[]int{iOauth}, [][]string{{"read"}}}, {[]int{iBasic}, nil}}, true)
 	addOp([]alt{{[]int{iOauth, 2}, [][]string{{"admin"}, nil}}, {[]int{0, 1}, nil}}, true)
+	addOp(plain([]int{iBearer}, []int{iBearer2}), true)
+	addOp(plain([]int{iBearer, iBearer2}), true)
+	addOp(plain([]int{iBearer2, 0}, []int{iBearer}), true)
+	addOp(plain([]int{0, iSameQ}), true)
+	addOp(plain([]int{0}, []int{iSameQ}, []int{iSameC}), true)
+	addOp(plain([]int{iSameQ, iSameC}, []int{0}), true)
 	addOp(plain([]int{0}), true)
 	addOp(plain([]int{1}), true)
 	addOp(plain([]int{2}), true)
